@@ -93,6 +93,21 @@ def gen_case(rng, max_events=24, kind=None):
     return case
 
 
+def gen_static_case(rng):
+    """a static output with a memory limit: one publication, read by one or two inputs at any times"""
+    payload = rng.choice(["plain", "masked", "maskedflex"])
+    shape = rng.choice(["g2", "g22"]) if payload != "plain" else rng.choices(list(SHAPES), weights=[5, 3, 2])[0]
+    nc = ncells(shape)
+    size = 8 * nc
+    case = {"kind": "static", "payload": payload, "shape": shape, "limit": rng.choice([None, -1, 0, 0, size - 1, size, size + 1]),
+            "units": rng.choice(["m", ""]), "n_ends": rng.choice([1, 2])}
+    events = [["push", None, [rng.randrange(-9, 10) for _ in range(nc)]]]
+    for _ in range(rng.randint(1, 6)):
+        events.append(["pull", rng.randrange(case["n_ends"]), rng.choice([0, 8, 3_600_000_000, 86_400_000_000])])
+    case["events"] = events
+    return case
+
+
 def make_adapter(case):
     k = case["kind"]
     if k == "next":
@@ -152,9 +167,10 @@ def run_impl(case, location, limit="case"):
     info_kw = {}
     if case["payload"] in ("masked", "maskedgap"):
         info_kw["mask"] = np.array(MASKS[case["shape"]]).reshape(dshape)
-    out = fm.Output(name="out", info=fm.Info(time=T(0), grid=grid, units=case["units"], **info_kw))
+    static = case["kind"] == "static"
+    out = fm.Output(name="out", static=static, info=fm.Info(time=None if static else T(0), grid=grid, units=case["units"], **info_kw))
     inputs = [fm.Input(name=f"in{k}", info=fm.Info(time=None, grid=None, units=None)) for k in range(case["n_ends"])]
-    if case["kind"] == "output":
+    if case["kind"] in ("output", "static"):
         slot = out
         for inp in inputs:
             out >> inp
@@ -197,7 +213,7 @@ def run_impl(case, location, limit="case"):
     for ev in case["events"]:
         if ev[0] == "push":
             try:
-                out.push_data(payload_of(case, ev[2], dshape), T(ev[1]))
+                out.push_data(payload_of(case, ev[2], dshape), None if ev[1] is None else T(ev[1]))
                 answers.append(None)
             except Exception as e:  # noqa
                 answers.append({"err": err_class(e), "msg": f"{type(e).__name__}: {str(e)[:120]}", "at": "push"})
@@ -444,6 +460,16 @@ def check_cases(ctx, cases, comp_cases, res):
         res.count("composition_runs_with_spill", n=1 if a["max_files"] else 0)
         if o:
             res.fail({"composition": c}, o[0], o[1])
+    # static outputs: oracle only (the one publication is spilled, read any number of times, removed at finalize)
+    for n in range(ctx.n(40, 400)):
+        c = gen_static_case(ctx.rng)
+        loc = os.path.join(root, f"s{n}")
+        impl = run_impl(c, loc)
+        res.case(c, max(len(x) for x in impl["listings"]) > 0)
+        res.count("kind", "static")
+        o = oracle(c, impl, loc)
+        if o:
+            res.fail(c, o[0], o[1])
     cwd_after = sorted(os.listdir(os.getcwd()))
     if cwd_after != cwd_before:
         res.fail({"whole_run": True}, "spill files are created only below the configured location",
@@ -506,9 +532,10 @@ def run(ctx, res):
 def search(ctx, res, divergences, broken):
     root = ctx.scratch()
     cases = [d["case"] for d in divergences if d.get("case") and "events" in d["case"]]
+    cases += [gen_static_case(ctx.rng) for _ in range(200)]
     cases += [gen_case(ctx.rng, 30) for _ in range(ctx.n(1500, 10000))]
     for n, c in enumerate(cases):
-        loc = os.path.join(root, f"s{n}")
+        loc = os.path.join(root, f"w{n}")
         impl = run_impl(c, loc)
         res.case(c, True)
         o = oracle(c, impl, loc)
@@ -554,7 +581,7 @@ def replay(ctx, rp):
     case = rp.get("input") or (rp.get("diverging_case") or {}).get("case")
     o = _eval(ctx, case, "replay")
     out = {"fails": bool(o), "oracle": o}
-    if "events" in case:
+    if "events" in case and case.get("kind") != "static":   # (static outputs are judged by the oracle only)
         loc = os.path.join(ctx.scratch(), "replay2")
         impl = run_impl(case, loc)
         m = common.lean_batch([model_request(case)])[0]
